@@ -232,6 +232,52 @@ theorem mkReverse_wf {s v : View ν α} {dimensions : List ν} (hs : s.WF)
       simp only [View.WF, List.length_map, and_true]
       exact hs
 
+/-! ### mutators of an existing view -/
+
+/-- whatever the arguments, the view that exists after `set_names` is well formed … -/
+theorem setNames_wf {v : View ν α} {dimensions : List ν} (hv : v.WF)
+    (hl : dimensions.length = v.shape.length) : (v.setNames dimensions).1.WF := by
+  cases v with
+  | rename s old =>
+    simp only [setNames]
+    split
+    · exact hv
+    · rename_i hd
+      simp only [View.WF] at hv ⊢
+      have : (View.rename s old).shape.length = s.shape.length := by
+        simp [View.shape, renameShape_length hv.2.1]
+      exact ⟨hv.1, by omega, hasDuplicates_eq_false.1 (by simpa using hd)⟩
+  | _ => exact hv
+
+/-- … and after a refused call it is the view that existed before -/
+theorem setNames_panic_unchanged (v : View ν α) (dimensions : List ν) (k : PanicKind)
+    (h : (v.setNames dimensions).2 = .panic k) : (v.setNames dimensions).1 = v := by
+  cases v with
+  | rename s old =>
+    simp only [setNames] at h ⊢
+    split
+    · rfl
+    · rename_i hd; simp [hd] at h
+  | _ => rfl
+
+/-- replacing the source behind `source_ref_mut` by any well-formed view of the same
+    dimensionality keeps the adaptor well formed -/
+theorem replaceSource_wf {v s s' : View ν α} (hv : v.WF) (hs' : s'.WF)
+    (hsrc : v.sourceOf = some s) (hl : s'.shape.length = s.shape.length) :
+    (v.replaceSource s').WF := by
+  cases v with
+  | rename s0 ns =>
+    simp only [sourceOf, Option.some.injEq] at hsrc; subst hsrc
+    simp only [View.WF] at hv
+    simp only [replaceSource, View.WF]
+    exact ⟨hs', by omega, hv.2.2⟩
+  | reverse s0 r =>
+    simp only [sourceOf, Option.some.injEq] at hsrc; subst hsrc
+    simp only [View.WF] at hv
+    simp only [replaceSource, View.WF]
+    exact ⟨hs', by omega⟩
+  | _ => simp [sourceOf] at hsrc
+
 /-! ### `find` / `position` -/
 
 theorem findPos_some {β : Type} {p : β → Bool} {l : List β} {i : Nat} (h : findPos p l = some i) :
